@@ -44,10 +44,10 @@ def norm_op(op, rename):
     return o
 
 
-def short_diff(a, b, limit=14):
+def short_diff(a, b, limit=14, labels=("history", "reference")):
     if a is None or b is None:
         return "%r vs %r" % (a if a is None else a[:80], b if b is None else b[:80])
-    lines = list(difflib.unified_diff(a.splitlines(), b.splitlines(), "history", "reference", lineterm="", n=1))
+    lines = list(difflib.unified_diff(a.splitlines(), b.splitlines(), labels[0], labels[1], lineterm="", n=1))
     return "\n".join(lines[:limit])[:1500]
 
 
@@ -139,7 +139,8 @@ class Evaluator:
             op = ops[i]
             return {"class": cls, "property": PROP_OF[cls], "op": i, "site": site_of(op),
                     "lhs_digest": canon.digest(lhs or ""), "rhs_digest": canon.digest(rhs or ""),
-                    "diff": short_diff(lhs, rhs), "detail": detail}
+                    "diff": short_diff(lhs, rhs, labels=("before", "after") if cls in ("V1", "V6", "V6w") else ("history", "reference")),
+                    "detail": detail}
 
         def precondition(i, what):
             info["precondition_failed"] = {"op": i, "what": what}
